@@ -54,9 +54,20 @@ fn k_dynroot_foreign_handle_rejected() {
         let set_c = DynamicRootSet::new(mc2);
         let child = Gc::new(mc, 5u8);
         let h = set_a.stash::<Rootable![u8]>(mc, child);
+        // the other sets are not empty: the sibling set holds, AT THE SAME SLOT INDEX, either the very same object or another one, and the
+        // set of the other arena holds an object at that index too - identity of the set decides, not what a slot happens to contain
+        let same_object: bool = kani::any();
+        let other = if same_object { child } else { Gc::new(mc, 6u8) };
+        let hb = set_b.stash::<Rootable![u8]>(mc, other);
+        let hc = set_c.stash::<Rootable![u8]>(mc2, Gc::new(mc2, 7u8));
+        assert!(h.index == hb.index && h.index == hc.index);
         assert!(set_a.contains(&h) && !set_b.contains(&h) && !set_c.contains(&h), "[conv] contains is true only for the issuing set");
-        assert!(set_b.try_fetch(&h).is_err() && set_c.try_fetch(&h).is_err(), "[conv] try_fetch fails for a handle from another set / another arena");
-        core::mem::forget(h); core::mem::forget(cx); core::mem::forget(cx2);
+        assert!(set_b.contains(&hb) && !set_a.contains(&hb) && !set_c.contains(&hb) && set_c.contains(&hc) && !set_a.contains(&hc), "[conv] contains is true only for the issuing set");
+        assert!(set_b.try_fetch(&h).is_err() && set_c.try_fetch(&h).is_err() && set_a.try_fetch(&hb).is_err() && set_a.try_fetch(&hc).is_err(),
+                "[conv] try_fetch fails for a handle from another set / another arena");
+        assert!(Gc::ptr_eq(set_a.fetch(&h), child) && Gc::ptr_eq(set_b.fetch(&hb), other), "[conv] the issuing set resolves the handle to the stashed object");
+        kani::cover!(same_object);
+        core::mem::forget(h); core::mem::forget(hb); core::mem::forget(hc); core::mem::forget(cx); core::mem::forget(cx2);
     }
 }
 #[kani::proof]
